@@ -442,6 +442,29 @@ func checkBytes(c *Ctx, codec int, x []byte, cast bool) *Violation {
 	}
 }
 
+// drawOptions puts the package into a drawn non-default option configuration for one case
+// in three (totality is claimed for every configuration; accept/reject does not depend on
+// the options drawn here - the XMPP stream switch, which returns before the root's end
+// tag is read, is left alone).
+func drawOptions(c *Ctx) {
+	t := c.T
+	if t.Draw(3) != 2 {
+		return
+	}
+	model := defaultModel()
+	var names []string
+	for i, n := 0, 1+t.Small(4); i < n; i++ {
+		st := drawStep(t, &model)
+		if strings.HasPrefix(st.Name, "HandleXMPP") {
+			continue
+		}
+		st.Do(&model)
+		names = append(names, st.Name)
+	}
+	c.Put("options", names)
+	c.C["probe.non_default_option_cases"]++
+}
+
 func runC15(c *Ctx) *Violation {
 	t := c.T
 	switch top := t.Draw(10); {
@@ -452,6 +475,7 @@ func runC15(c *Ctx) *Violation {
 	}
 	codec := t.Draw(3)
 	cast := t.Draw(3) == 2
+	drawOptions(c)
 	var doc string
 	switch codec {
 	case 0:
@@ -779,6 +803,7 @@ func runC15Args(c *Ctx) *Violation {
 		return nil
 	}
 	c.Put("map_from", doc)
+	drawOptions(c)
 	if t.Draw(6) == 5 {
 		mxj.SetFieldSeparator("|")
 		c.Put("field_separator", "|")
